@@ -10,6 +10,7 @@ import (
 	"math"
 	"math/big"
 	"strings"
+	"time"
 
 	"golang.org/x/tools/go/ssa"
 )
@@ -85,6 +86,8 @@ type Exec struct {
 
 	// per-run options
 	mergeIf      bool
+	prune        bool // opt prune: solver-decided branches are not forked
+	pruneQueries int
 	mergeCallMax int
 	maxPaths     int
 	safety       bool
@@ -1550,6 +1553,17 @@ func (x *Exec) runInstrs(st *State, fr *Frame, b *ssa.BasicBlock, idx int, prev 
 			if x.paths > x.maxPaths {
 				fail("path limit %d exceeded in %s", x.maxPaths, fr.fn)
 			}
+			if x.prune {
+				// opt prune: a branch the path condition already decides is not explored
+				if x.infeasible(st, c) {
+					st.assume(mkNot(c))
+					return st, b.Succs[1], b, nil, false
+				}
+				if x.infeasible(st, mkNot(c)) {
+					st.assume(c)
+					return st, b.Succs[0], b, nil, false
+				}
+			}
 			st1 := st.fork()
 			st2 := st.fork()
 			fr2 := fr.clone()
@@ -1943,4 +1957,13 @@ func (x *Exec) checkCallAsserts(st *State, fr *Frame, c *ssa.CallCommon) {
 		x.specMode--
 		x.oblige(st, "call."+callee.Name()+".guard", t, "at every call of "+callee.Name()+": "+ca.text)
 	}
+}
+
+// infeasible reports whether the hypotheses at st together with c are
+// unsatisfiable according to a solver (a short query; "no answer" keeps the path).
+func (x *Exec) infeasible(st *State, c *Term) bool {
+	asserts := append(append([]*Term{}, x.assumptions(st)...), c)
+	r := solveQuery(asserts, nil, "", 3*time.Second, false)
+	x.pruneQueries++
+	return r.status == "unsat"
 }
